@@ -182,6 +182,22 @@ func VerifHarness_C19_failed_start() {
 	verifrt.Sig("failed-start", "run")
 	verifrt.Assert(runDone && runErr != nil, "C19.failed-start.run-returns-the-load-error")
 	mu.Unlock()
+	retried := verifrt.Choose("run-retried-after-the-storage-was-repaired", 2) == 1
+	run2Done := false
+	if retried {
+		// the operator repairs the storage and the application runs the same node again
+		store.Remove(ctx, "spynode/blocks/00000000")
+		go func() {
+			node.Run(ctx)
+			mu.Lock()
+			run2Done = true
+			mu.Unlock()
+		}()
+		for i := 0; i < 10; i++ {
+			w.tick(100 * time.Millisecond)
+		}
+		verifrt.Reach("C19.failed-start.retried")
+	}
 	go func() {
 		node.Stop(ctx)
 		mu.Lock()
@@ -200,6 +216,11 @@ func VerifHarness_C19_failed_start() {
 	mu.Lock()
 	verifrt.Sig("failed-start", "stop")
 	verifrt.Assert(stopDone, "C19.failed-start.stop-returns")
+	if retried {
+		// ... and it returns because the run loop has returned, not because of the earlier failure
+		verifrt.Sig("failed-start", "second-run")
+		verifrt.Assert(run2Done, "C19.stop.run-loop-has-returned-when-stop-returns")
+	}
 	mu.Unlock()
 	verifrt.Reach("C19.failed-start.done")
 }
